@@ -34,6 +34,7 @@ whose tokens carries a custom verb (`C02_curly_rootverb_witness`: the new scorin
 `:verb` before cutting the expression out of the token).
 -/
 import Restful.Lemmas.Classify
+import Restful.Lemmas.StateShape
 namespace Restful
 namespace Props
 variable (E : ReEnv)
@@ -79,6 +80,12 @@ and are audited with this property: -/
 -- also: Restful.C02_roots_witness
 -- also: Restful.C02_curly_roots_witness
 -- also: Restful.C02_curly_rootverb_witness
+
+/-! The frame condition (Lemmas/StateShape.lean): the code has exactly the state this property's model
+    accounts for — no further package-level variable, struct type or field; constants as modelled. -/
+-- also: Restful.StateShape.globals_shape
+-- also: Restful.StateShape.consts_shape
+-- also: Restful.StateShape.routing_shape
 
 end Props
 end Restful
